@@ -203,15 +203,22 @@ func runC17(t *testing.T, s C17Scenario) (res Result) {
 							problem("writer %d: Sync failed: %v", wi, err)
 							return
 						}
+						// first the lookups that cannot wait: the header has to be there when Sync returns,
+						// not a moment later (GetByHeight would wait for a height that is still to come)
+						for _, x := range chunk {
+							if g2, err := e.st.Get(ctx, x.Hash()); err != nil || !vh.Equal(g2, x) {
+								problem("writer %d: header %d is not readable by hash after Append+Sync returned: %v", wi, x.H, err)
+							}
+							if ok, err := e.st.Has(ctx, x.Hash()); err != nil || !ok {
+								problem("writer %d: Has(header %d) = (%v, %v) after Append+Sync returned", wi, x.H, ok, err)
+							}
+						}
 						for _, x := range chunk {
 							c1, cn := vctx(time.Second)
 							g, err := e.st.GetByHeight(c1, x.H)
 							cn()
 							if err != nil || !vh.Equal(g, x) {
 								problem("writer %d: header %d is not readable by height after Append+Sync returned: %v", wi, x.H, err)
-							}
-							if g2, err := e.st.Get(ctx, x.Hash()); err != nil || !vh.Equal(g2, x) {
-								problem("writer %d: header %d is not readable by hash after Append+Sync returned: %v", wi, x.H, err)
 							}
 						}
 					}
@@ -571,6 +578,7 @@ func enumerateSchedules(exec func(tape []int) (ks, ns []int, stop bool), maxRuns
 //	4: store [1,2]; batch 4; writers Append(3), Append(3..4) (overlap); no deleter; one reader (1 round)
 //	5: as 0 but DeleteRange(1,3): the deletion reaches the head of the time of the call (whole-store path or, when
 //	   header 3 has arrived, tail-side path)
+//	6: store [1,2]; batch 4; one writer Append(3) then Append(4); another Append(5) followed by Sync and a read-back
 var c17EnumConfigs = []C17Scenario{
 	{Cfg: StoreCfg{Batch: 4, StoreCache: 8, IndexCache: 8}, Prefill: 2,
 		Writers: [][]C12Chunk{{{Off: 0, N: 1}}, {{Off: 1, N: 1}}}, SyncAfter: []bool{false, false}, DeleteK: 1},
@@ -584,6 +592,8 @@ var c17EnumConfigs = []C17Scenario{
 		Writers: [][]C12Chunk{{{Off: 0, N: 1}}, {{Off: 0, N: 2}}}, SyncAfter: []bool{false, false}, Readers: 1, ReadSteps: 1},
 	{Cfg: StoreCfg{Batch: 4, StoreCache: 8, IndexCache: 8}, Prefill: 2,
 		Writers: [][]C12Chunk{{{Off: 0, N: 1}}, {{Off: 1, N: 1}}}, SyncAfter: []bool{false, false}, DeleteK: 2},
+	{Cfg: StoreCfg{Batch: 4, StoreCache: 8, IndexCache: 8}, Prefill: 2,
+		Writers: [][]C12Chunk{{{Off: 0, N: 1}, {Off: 1, N: 1}}, {{Off: 2, N: 1}}}, SyncAfter: []bool{false, true}},
 }
 
 // runEnum enumerates every schedule of each configuration (stateless DFS, sharded by the first choices).
